@@ -49,6 +49,9 @@ def translate(ctx):
     return {'Chi2': info}
 
 
+MAX_TERM = 120000
+COQ_TIMEOUT = 150
+
 HEADER = '''From Coq Require Import QArith ZArith List. Import ListNotations.
 From PV Require Import Lib.WLS C13.LinAlg C15.Model. Open Scope Q_scope.'''
 
@@ -369,7 +372,12 @@ def correspond(ctx, proof_ok=True):
                            {'kind': 'failing-input', 'call': public(c), 'impl_result': r}))
         terms.append((ci, case_term(c, r)))
 
-    cc = C.CoqCases(ctx.work, HEADER, 'run_cases', shard=4)
+    # hard caps: no case term above MAX_TERM characters reaches Coq, and no coqc process may run longer than
+    # COQ_TIMEOUT seconds (a runaway exact computation then fails the run quickly instead of stalling it)
+    oversize = [k for k, (_, t) in enumerate(terms) if len(t) > MAX_TERM]
+    if oversize:
+        raise RuntimeError('%d case terms exceed %d characters (generator bug): refusing to evaluate' % (len(oversize), MAX_TERM))
+    cc = C.CoqCases(ctx.work, HEADER, 'run_cases', shard=4, timeout=COQ_TIMEOUT)
     verdicts = cc.run([t for _, t in terms])
     ctx.coverage['coq_eval_s'] = round(cc.coq_seconds, 1)
 
